@@ -30,7 +30,9 @@ SPEC = {
 WORDS = ['WHOLE', 'FOODS', 'MARKET', 'Starbucks', 'store', 'UBER', 'EATS', 'AMZN', 'Mktp', 'US', 'Netflix.com', 'COSTCO', 'WHSE', 'Shell', 'OIL',
          "O'Reilly", 'AT&T', 'T-Mobile', 'H&M', 'Café', 'ÜBER', '7-ELEVEN', 'A+', 'C++', 'what?', '(refund)', '[adj]', '{x}', 'a|b', '^top', '$5',
          "CHRISTOPHER'S", 'STEAKHOUSE', '(DOWNTOWN)', '(AIRPORT)', 'INTERNATIONAL', 'RESTAURANT+BAR', 'MARKETPLACE.COM', 'SUPERCALIFRAGILISTIC',
-         'back\\slash', '"quoted"', "it's", '50%', 'x*y', 'dot.com', 'semi;colon', 'a,b', 'DES:123', 'ID:9']
+         'back\\slash', '"quoted"', "it's", '50%', 'x*y', 'dot.com', 'semi;colon', 'a,b', 'DES:123', 'ID:9',
+         # outside the Basic Multilingual Plane (emoji, CJK extension B), other scripts, letters whose case forms differ in length
+         '\U0001f355PIZZA', 'PIZZA\U0001f355', '\U00020bb7\u91ce\u5bb6', '\u6771\u4eac', 'Stra\u00dfe', '\u0130STANBUL', '\u041c\u0410\u0413\u0410\u0417\u0418\u041d', '\U0001f600']
 PREFIX = ['', '', '', 'SQ *', 'TST*', 'TST* ', 'APLPAY ', 'SP ', 'PP*', 'GOOGLE *', 'sq *', 'Tst*']
 SUFFIX = ['', '', ' WA', ' CA', ' 98101', ' 12345678 SEATTLE', ' #1234', ' #12', ' 1234567', ' wa', ' NY 10001', ' 0042', ' x1']
 MIDDLE = ['', '', '', ' #123', ' 12', ' #7', ' 00123']
@@ -46,7 +48,7 @@ def gen_desc(rnd):
         words.append(w)
         if i < n - 1 and rnd.random() < .2:
             words.append(rnd.choice(MIDDLE).strip() or w)
-    seps = [rnd.choice([' ', ' ', ' ', '  ', '\t', '   ']) for _ in words]
+    seps = [rnd.choice([' ', ' ', ' ', '  ', '\t', '   ', ' ', ' ', '\u00a0']) for _ in words]
     body = ''.join(w + s for w, s in zip(words, seps)).strip()
     d = rnd.choice(PREFIX) + body + rnd.choice(SUFFIX)
     return d.strip()
